@@ -109,8 +109,18 @@ _RGB = [(200, 30, 40), (20, 180, 60)]
 _ALPHA = {4: 1.0, 2: 0.5}
 
 
-def _svg_for(colors):
-    """One rect per colour, z-order = list order.  colour = {v, a, idx, cur}"""
+def _svg_for(colors, as_stops=False):
+    """One rect per colour, z-order = list order.  colour = {v, a, idx, cur}.  as_stops: the colours are the stops of one
+    linear gradient instead (palette variables and opacity are legal on <stop> too)."""
+    if as_stops:
+        stops = []
+        for i, c in enumerate(colors):
+            rgb = "#%02X%02X%02X" % _RGB[c["v"]]
+            col = rgb if c["idx"] < 0 else f"var(--color{c['idx']}, {rgb})"
+            op = "" if c["a"] == 4 else f' stop-opacity="{_ALPHA[c["a"]]}"'
+            stops.append(f'<stop offset="{i / (len(colors) - 1):.4f}" stop-color="{col}"{op}/>')
+        return ('<svg xmlns="http://www.w3.org/2000/svg" viewBox="0 0 100 100"><defs><linearGradient id="g" x1="10" y1="10" x2="90" y2="10" '
+                f'gradientUnits="userSpaceOnUse">{"".join(stops)}</linearGradient></defs><path d="M10,10 L90,10 L90,60 L10,60 Z" fill="url(#g)"/></svg>')
     parts = ['<svg xmlns="http://www.w3.org/2000/svg" viewBox="0 0 100 100">']
     for i, c in enumerate(colors):
         if c["cur"]:
@@ -158,6 +168,25 @@ def _read_back(font, version, gname, ncolors):
     return out
 
 
+def _read_back_stops(font, gname):
+    """[(rgb, alpha, palette index, cpal alpha byte)] per colour stop in offset order (COLRv1, one gradient layer)."""
+    cpal = font["CPAL"].palettes[0]
+    t = font["COLR"].table
+    p = [r for r in t.BaseGlyphList.BaseGlyphPaintRecord if r.BaseGlyph == gname][0].Paint
+    if p.Format == 1:
+        p = t.LayerList.Paint[p.FirstLayerIndex]
+    g = p.Paint
+    while g.Format in (12, 14, 16, 18, 20, 22):   # a transform wrapper
+        g = g.Paint
+    if g.Format != 4:
+        return None
+    out = []
+    for st in sorted(g.ColorLine.ColorStop, key=lambda x: x.StopOffset):
+        c = cpal[st.PaletteIndex]
+        out.append(((c.red, c.green, c.blue), round(st.Alpha, 3), st.PaletteIndex, c.alpha))
+    return out
+
+
 def _replay_fonts(chk, records, limit):
     from . import build
 
@@ -171,8 +200,10 @@ def _replay_fonts(chk, records, limit):
         fmt = f"glyf_colr_{version}"
         cfg = build.base_config(color_format=fmt, upem=100, ascender=100, descender=0, width=100,
                                 keep_glyph_names=True, reuse_tolerance=-1)
-        src = build.Src("emoji_u1f600.svg", _svg_for(colors))
-        replay = {"kind": "font", "format": fmt, "svg": src.svg_text, "model": rec}
+        # every third COLRv1 scenario carries its colours on gradient stops instead of solid fills
+        as_stops = version == 1 and len(colors) >= 2 and not any(c["cur"] for c in colors) and (done % 3 == 2)
+        src = build.Src("emoji_u1f600.svg", _svg_for(colors, as_stops))
+        replay = {"kind": "font", "format": fmt, "svg": src.svg_text, "model": rec, "as_stops": as_stops}
         chk.case(key=("font", json.dumps(rec, sort_keys=True)), nontrivial=len(colors) >= 2)
         try:
             _, font = build.build(cfg, [src])
@@ -189,7 +220,10 @@ def _replay_fonts(chk, records, limit):
             chk.violation(f"valid colours failed to build: {err}", replay)
             continue
         done += 1
-        got = _read_back(font, version, src.glyph_name, len(colors))
+        got = _read_back_stops(font, src.glyph_name) if as_stops else _read_back(font, version, src.glyph_name, len(colors))
+        if got is None:
+            chk.violation("a linear gradient source did not compile to a PaintLinearGradient layer", replay)
+            continue
         if len(got) != len(colors):
             chk.violation(f"{len(got)} layers for {len(colors)} shapes", replay)
             continue
